@@ -10,6 +10,7 @@ mod classicenv;
 mod cldb;
 mod cldbsrc;
 mod conv;
+mod crash;
 mod coresyms;
 mod deps;
 mod entry;
@@ -41,6 +42,7 @@ fn main() {
         "coresyms" => coresyms::run(&rest),
         "passes" => passes::run(&rest),
         "classicenv" => classicenv::run(&rest),
+        "crash" => crash::run(&rest),
         "conv" => conv::run(&rest),
         "entry" => entry::run(&rest),
         "cldbmain" => entry::cldb_main(&rest),
